@@ -7,7 +7,7 @@
    comb / fuel / the script [evs] quantify over every reader behaviour (arbitrary
    chunking, 0-byte reads, an error at any offset, data together with EOF/error).
    [matches_desc H dg sz bs] = length bs = sz /\ dg = alg:H alg bs /\ dg is a valid digest. *)
-From Oras Require Import Base.Prelude Generated.GC05 Model.Verify Proofs.Verify Proofs.VerifyComplete.
+From Oras Require Import Base.Prelude Generated.GC05 Model.Verify Proofs.Verify Proofs.VerifyComplete Proofs.VerifyProxy Proofs.VerifyFuel Proofs.VerifyConc.
 
 (* ReadAll hands back data only when length and digest match and the reader held
    nothing else *)
@@ -239,6 +239,57 @@ Proof.
 Qed.
 Print Assumptions C05_visible_matches.
 
+(* the fuel of the model's loops excludes nothing: with more fuel than the weight of
+   the reader script (events + bytes) ReadAll and CopyBuffer (buffer >= 1) never
+   report EFuel and their complete result no longer depends on the fuel *)
+Theorem C05_fuel_sufficient :
+  forall (H : str -> str -> str) comb fixed fuel src bufsz dg sz,
+    (ev_weight (b_evs src) < fuel)%nat ->
+    fst (fst (read_all H comb fixed fuel src dg sz)) <> Some EFuel /\
+    (forall fuel', (ev_weight (b_evs src) < fuel')%nat ->
+       read_all H comb fixed fuel' src dg sz = read_all H comb fixed fuel src dg sz) /\
+    ((1 <= bufsz)%nat ->
+       fst (fst (copy_buffer H comb fixed fuel src bufsz dg sz)) <> Some EFuel /\
+       forall fuel', (ev_weight (b_evs src) < fuel')%nat ->
+         copy_buffer H comb fixed fuel' src bufsz dg sz = copy_buffer H comb fixed fuel src bufsz dg sz).
+Proof.
+  intros H comb fixed fuel src bufsz dg sz Fu. split; [|split].
+  - exact (read_all_no_fuel H comb fixed fuel src dg sz Fu).
+  - intros fuel' Fu'. exact (read_all_fuel_indep H comb fixed fuel' fuel src dg sz Fu' Fu).
+  - intro B1. split.
+    + exact (copy_buffer_no_fuel H comb fixed fuel src bufsz dg sz B1 Fu).
+    + intros fuel' Fu'. exact (copy_buffer_fuel_indep H comb fixed fuel' fuel src bufsz dg sz B1 Fu' Fu).
+Qed.
+Print Assumptions C05_fuel_sufficient.
+
+(* cas.Proxy (NewProxy / NewProxyWithLimit over a cas.Memory cache; Fetch, any
+   sequence of Read sizes, Close; StopCaching on or off; the io.Pipe / drain protocol
+   between the TeeReader and the cache push): the cache only ever holds verified
+   content; what Fetch hands out is a prefix of the cached bytes (hit) or of the base
+   store's bytes (miss); with StopCaching or when the cache push fails (short, wrong,
+   trailing, malformed, too big) the cache is unchanged; when it is filled, it is
+   filled with bytes of the base that match the descriptor *)
+Theorem C05_proxy :
+  forall (H : str -> str -> str) limit stop m d comb evs ks rs ce m',
+    (forall d0 bs, mem_get m d0 = Some bs -> matches_desc H (d_dg d0) (d_sz d0) bs) ->
+    proxy_fetch H limit stop m d comb evs ks = ((rs, ce), m') ->
+    (forall d0 bs, mem_get m' d0 = Some bs -> matches_desc H (d_dg d0) (d_sz d0) bs) /\
+    match mem_get m d with
+    | Some bs =>
+        matches_desc H (d_dg d) (d_sz d) bs /\ m' = m /\ ce = None /\
+        exists rest, bs = concat (map fst rs) ++ rest
+    | None =>
+        (exists rest, stream evs = concat (map fst rs) ++ rest) /\
+        (stop = true -> m' = m /\ ce = None) /\
+        (ce <> None -> m' = m) /\
+        (m' = m \/
+         exists buf, m' = (d, buf) :: m /\ ce = None /\ matches_desc H (d_dg d) (d_sz d) buf /\
+                     (exists rest, stream evs = buf ++ rest) /\
+                     (limit = None -> buf = concat (map fst rs)))
+    end.
+Proof. exact proxy_fetch_spec. Qed.
+Print Assumptions C05_proxy.
+
 (* concurrent pushes into one OCI layout (any number of threads, any descriptors --
    in particular good and bad content under one digest --, any schedule of their
    Stat / CreateTemp / Write / Remove / Rename micro-steps): at every instant every
@@ -262,6 +313,23 @@ Proof.
   - intros i n st' t w Es Ei Ep. exact (cstep_success H st i n st' t Iv Es Ei (ex_intro _ w Ep)).
 Qed.
 Print Assumptions C05_concurrent_same_digest.
+
+(* the outcome set the implementation's concurrent runs are compared with (exhaustive
+   interleaving of the micro-steps, [explore]) consists of runs of the transition
+   system only, so the invariant above holds for each of those outcomes *)
+Theorem C05_concurrent_explored :
+  forall (H : str -> str -> str) fuel big blobs ts st',
+    oci_reach H blobs -> Forall (fun t => t_pc t = PStart) ts ->
+    In st' (explore H fuel big (mkC blobs ts)) ->
+    (exists sched, crun H (mkC blobs ts) sched = Some st') /\
+    (forall dg bs, oci_get (c_blobs st') dg = Some bs ->
+                   dg = digest_of H (alg_of dg) bs /\ valid_digest dg = true).
+Proof.
+  intros H fuel big blobs ts st' R F I1. split.
+  - exact (explore_reachable H fuel big _ _ I1).
+  - exact (explore_invariant H fuel big blobs ts st' R F I1).
+Qed.
+Print Assumptions C05_concurrent_explored.
 
 (* the behaviour before the repair (NewVerifyReader accepted a negative Size): the
    CopyBuffer path stored the empty blob under a descriptor of size -1 *)
@@ -323,3 +391,12 @@ Example C05_ex_complete_hypotheses :
   toy_dg (stream evs) = digest_of toyH (alg_of (toy_dg (stream evs))) (stream evs) /\
   fst (copy_buffer toyH true true 20 (mkBase evs None) 1 (toy_dg (stream evs)) 3) = (None, [1;2;3]).
 Proof. vm_compute. repeat split; reflexivity. Qed.
+
+(* the proxy: a good fetch fills the cache, a second fetch is a hit, a trailing byte is refused *)
+Example C05_ex_proxy :
+  let d := mkDesc [] (toy_dg [1;2;3]) 3 in
+  let '((r1, c1), m1) := proxy_fetch toyH None false [] d false [Data [1;2]; Data [3]] [2; 5; 1]%nat in
+  let '((r2, c2), m2) := proxy_fetch toyH None false m1 d false [Data [9]] [5; 1]%nat in
+  let '((r3, c3), m3) := proxy_fetch toyH None false [] d false [Data [1;2;3;4]] [3; 5; 1]%nat in
+  (c1, m1, map fst r2, c2, c3, m3) = (None, [(d, [1;2;3])], [[1;2;3]; []], None, Some ETrailing, []).
+Proof. vm_compute. reflexivity. Qed.
